@@ -97,6 +97,22 @@ def apply_r10(text, log, ctx):
     return R10_RE.sub(rep, text)
 
 
+R17_RE = re.compile(
+    r"let\s+mut\s+decoder\s*=\s*PostcardDecoder::new\(\s*std::io::Cursor::new\(\s*(?P<src>[^;]*?)\s*,?\s*\)\s*,?\s*\);\s*"
+    r"let\s+(?P<var>[A-Za-z_][A-Za-z_0-9]*)\s*=\s*decoder\s*\.decode::<(?P<ty>[^>;]+)>\((?P<plugin>[^;()]*?)\)\s*\.expect\((?P<msg>\"[^\"]*\")\);")
+
+
+def apply_r17(text, log, ctx):
+    """R17: the idiom `let mut decoder = PostcardDecoder::new(std::io::Cursor::new(SRC)); let V = decoder.decode::<T>(PLUGIN).expect(MSG);`
+    becomes `let V = verif_postcard_decode::<T, _>(SRC, PLUGIN);` -- an opaque call carrying C12's Decode contract on a complete
+    image (Cursor over an in-memory buffer; `expect` = decoding of a stored image succeeds)."""
+    def rep(m):
+        new = f"let {m.group('var')} = verif_postcard_decode::<{m.group('ty').strip()}, _>({m.group('src').strip()}, {m.group('plugin').strip()});"
+        log.append({"rule": "R17", "in": ctx, "before": re.sub(r"\s+", " ", m.group(0)), "after": new})
+        return new
+    return R17_RE.sub(rep, text)
+
+
 R11A_RE = re.compile(r"\b(u16|u32|u64|u128|usize|i16|i32|i64|i128|isize)::from_le_bytes\(")
 R11B_RE = re.compile(r"\.to_le_bytes\(\)")
 R12_RE = re.compile(r"(?P<buf>\b[A-Za-z_][A-Za-z_0-9]*)\s*\[(?P<a>[^\]\[]*?)\.\.(?P<b>[^\]\[]*?)\]\s*\.copy_from_slice\((?P<src>[^;]*)\);")
@@ -155,6 +171,8 @@ def apply_rewrites(text, log, ctx):
         text = apply_r11_r12(text, log, ctx)
     if "R15" in ACTIVE_RULES:
         text = apply_r15(text, log, ctx)
+    if "R17" in ACTIVE_RULES:
+        text = apply_r17(text, log, ctx)
     if "R13" in ACTIVE_RULES:
         # R13: alpha-rename the method type parameter the derive macros use (__E/__D) to the name the trait
         # declaration uses (E/D): Verus mis-translates inherited ensures when the names differ (internal error)
@@ -269,6 +287,11 @@ def splice_fn(text, spl, name, log):
         if n14:
             log.append({"rule": "R14", "in": name, "before": f"{idn}.len()", "after": f"verif_str_len({idn})"})
             text = new_text
+    for a, b in spl.get("subs", []):
+        if a not in text:
+            raise LostAnchor(f"fn {name}: text-sub: `{a}` not found")
+        text = text.replace(a, b)
+        log.append({"rule": "SUB", "in": name, "before": a, "after": b})
     toks = lex(text)
     ct = code_tokens(toks)
     # signature end: first '{' or ';' at depth 0
@@ -612,6 +635,12 @@ class Unit:
                 i += 1
             elif w == "strlen":
                 spl["strlen"] = words[1]
+                i += 1
+            elif w == "text-sub":
+                # `//@ text-sub OLD => NEW`: substitution in the extracted text of this fn (rewrite SUB; used to resolve an
+                # associated type the verifier cannot express, e.g. a generic associated type, to the type the impl binds it to)
+                a, b = s[3:].strip()[len("text-sub"):].split("=>")
+                spl.setdefault("subs", []).append((a.strip(), b.strip()))
                 i += 1
             elif w == "body" and words[1] == "external":
                 spl["external"] = True
